@@ -12,6 +12,7 @@ import (
 	"sort"
 	"strings"
 	"testing"
+	"time"
 
 	"github.com/AdguardTeam/AdGuardHome/internal/client"
 	"github.com/AdguardTeam/AdGuardHome/internal/dhcpsvc"
@@ -166,7 +167,11 @@ type c04Spec struct {
 	SafeSearchObject bool     `json:"safesearch_object_present"`
 	OwnServices      bool     `json:"use_own_blocked_services"`
 	Services         []string `json:"services"`
-	Tags             []string `json:"tags"`
+	// ServicesPaused: the client's own blocked-services pause schedule covers
+	// the whole week (schedule.FullWeekly) instead of nothing (EmptyWeekly);
+	// both are independent of the clock.
+	ServicesPaused bool     `json:"own_services_schedule_pausing"`
+	Tags           []string `json:"tags"`
 }
 
 // c04Client is a client of the shadow model.
@@ -224,6 +229,14 @@ func c04NextUID() (u client.UID) {
 	return u
 }
 
+// c04Sched returns a pause schedule that pauses always or never.
+func c04Sched(pausing bool) *schedule.Weekly {
+	if pausing {
+		return schedule.FullWeekly()
+	}
+	return schedule.EmptyWeekly()
+}
+
 // c04Build makes a fresh product client and the matching model client from
 // a spec.  Nothing is shared between the two or with the spec.
 func c04Build(spec c04Spec) (p *client.Persistent, m *c04Client, err error) {
@@ -232,7 +245,7 @@ func c04Build(spec c04Spec) (p *client.Persistent, m *c04Client, err error) {
 		Name: spec.Name,
 		UID:  c04NextUID(),
 		BlockedServices: &filtering.BlockedServices{
-			Schedule: schedule.EmptyWeekly(),
+			Schedule: c04Sched(spec.ServicesPaused),
 			IDs:      slices.Clone(spec.Services),
 		},
 		Tags:                  slices.Clone(spec.Tags),
@@ -272,7 +285,7 @@ func c04Build(spec c04Spec) (p *client.Persistent, m *c04Client, err error) {
 type c04State struct {
 	rep     *verifkit.Report
 	st      *client.Storage
-	flt     *filtering.DNSFilter
+	flts    []*c04Filter
 	dhcp    *c04DHCP
 	clients []*c04Client
 	nextUID int
@@ -501,6 +514,8 @@ func c04RecordMatches(p *client.Persistent, c *c04Client) (field string) {
 		return "settings"
 	case p.BlockedServices == nil || !slices.Equal(p.BlockedServices.IDs, c.spec.Services):
 		return "blocked-services"
+	case p.BlockedServices.Schedule == nil || p.BlockedServices.Schedule.Contains(time.Now()) != c.spec.ServicesPaused:
+		return "blocked-services-schedule"
 	case !slices.Equal(tags, c.tags):
 		return "tags"
 	}
@@ -566,6 +581,7 @@ type c04ApplyOut struct {
 	SafeBrows  bool     `json:"safebrowsing"`
 	Parental   bool     `json:"parental"`
 	Services   []string `json:"blocked_services"` // nil = the global object was left in place
+	Paused     string   `json:"blocked_services_schedule"`
 	SSOwner    string   `json:"client_safe_search_of"`
 }
 
@@ -575,7 +591,7 @@ func (o c04ApplyOut) str() string {
 		ss = strings.Join(o.Services, ",")
 	}
 	return o.Name + "|" + strings.Join(o.Tags, ",") + "|" + string([]byte{c04B(o.Filtering), c04B(o.SafeSearch),
-		c04B(o.SafeBrows), c04B(o.Parental)}) + "|" + ss + "|" + o.SSOwner
+		c04B(o.SafeBrows), c04B(o.Parental)}) + "|" + ss + "|" + o.Paused + "|" + o.SSOwner
 }
 
 func (h *c04State) apply(cid string, a netip.Addr, g bool) (o c04ApplyOut) {
@@ -592,11 +608,22 @@ func (h *c04State) apply(cid string, a netip.Addr, g bool) (o c04ApplyOut) {
 	h.st.ApplyClientFiltering(cid, a, setts)
 	o = c04ApplyOut{Name: setts.ClientName, Tags: setts.ClientTags, Filtering: setts.FilteringEnabled,
 		SafeSearch: setts.SafeSearchEnabled, SafeBrows: setts.SafeBrowsingEnabled, Parental: setts.ParentalEnabled}
+	o.Paused = "global"
 	if setts.BlockedServices != c04GlobalBS {
 		if setts.BlockedServices == nil {
 			o.Services = []string{"<nil>"}
+			o.Paused = "<nil>"
 		} else {
 			o.Services = append([]string{}, setts.BlockedServices.IDs...)
+			// Full and empty weekly schedules answer the same at any instant.
+			switch sch := setts.BlockedServices.Schedule; {
+			case sch == nil:
+				o.Paused = "<nil>"
+			case sch.Contains(time.Now()):
+				o.Paused = "pausing"
+			default:
+				o.Paused = "not-pausing"
+			}
 		}
 	}
 	switch v := setts.ClientSafeSearch.(type) {
@@ -613,7 +640,7 @@ func (h *c04State) apply(cid string, a netip.Addr, g bool) (o c04ApplyOut) {
 // wantApply is what the statement demands when the request is attributed to c
 // (nil: to nobody) and the global switches all read g.
 func c04WantApply(c *c04Client, g bool) (o c04ApplyOut) {
-	o = c04ApplyOut{Filtering: g, SafeSearch: g, SafeBrows: g, Parental: g, SSOwner: c04GlobalSS.id}
+	o = c04ApplyOut{Filtering: g, SafeSearch: g, SafeBrows: g, Parental: g, SSOwner: c04GlobalSS.id, Paused: "global"}
 	if c == nil {
 		return o
 	}
@@ -635,6 +662,7 @@ func c04WantApply(c *c04Client, g bool) (o c04ApplyOut) {
 	}
 	if c.spec.OwnServices {
 		o.Services = append([]string{}, c.spec.Services...)
+		o.Paused = map[bool]string{true: "pausing", false: "not-pausing"}[c.spec.ServicesPaused]
 	}
 	return o
 }
@@ -657,6 +685,8 @@ func c04ApplyDiff(got, want c04ApplyOut) string {
 		return "safesearch-object"
 	case (got.Services == nil) != (want.Services == nil) || !slices.Equal(got.Services, want.Services):
 		return "blocked-services"
+	case got.Paused != want.Paused:
+		return "blocked-services-schedule"
 	}
 	return ""
 }
@@ -707,7 +737,8 @@ func (h *c04State) checkApply(cid string, a netip.Addr, g bool, got c04ApplyOut,
 	}
 	if d := c04ApplyDiff(got, want); d != "" {
 		own := "global"
-		if (d == "blocked-services" && c.spec.OwnServices) || (d != "blocked-services" && c.spec.OwnSettings) {
+		svcDiff := strings.HasPrefix(d, "blocked-services")
+		if (svcDiff && c.spec.OwnServices) || (!svcDiff && c.spec.OwnSettings) {
 			own = "own"
 		}
 		h.violate("apply:settings:"+d+":client-uses-"+own+ctx,
@@ -863,47 +894,143 @@ func (h *c04State) probeAll(pr *c04Probes, e2e *rand.Rand) (obs []string) {
 
 	// The same requests through the filtering module (what dnsforward calls):
 	// blocked-service rules that end up in the settings.
-	if h.flt != nil {
-		for i := 0; i < 6; i++ {
-			a := pr.addrs[e2e.Intn(len(pr.addrs))]
-			cid := pr.applyCIDs[e2e.Intn(len(pr.applyCIDs))]
-			setts := h.flt.Settings()
-			h.flt.ApplyAdditionalFiltering(a, cid, setts)
-			var svc []string
-			for _, r := range setts.ServicesRules {
-				svc = append(svc, r.Name)
+	for i := 0; i < 6 && len(h.flts) > 0; i++ {
+		a := pr.addrs[e2e.Intn(len(pr.addrs))]
+		cid := pr.applyCIDs[e2e.Intn(len(pr.applyCIDs))]
+		// Two of three probes are requests of some client.
+		for try := 0; try < 4 && i%3 != 0; try++ {
+			if cs, _ := h.wantRequest(cid, a); len(cs) > 0 {
+				break
 			}
-			rep.Event("probes_through_filtering_module")
-			cands, tier := h.wantRequest(cid, a)
-			okAny := false
-			var wants [][]string
-			if len(cands) == 0 {
-				cands = []*c04Client{nil}
-			}
-			for _, c := range cands {
-				want := c04GlobalSvcs
-				name := ""
-				if c != nil {
-					name = c.spec.Name
-					if c.spec.OwnServices {
-						want = c.spec.Services
-					}
-				}
-				wants = append(wants, want)
-				if name == setts.ClientName && slices.Equal(svc, want) {
-					okAny = true
-				}
-			}
-			if !okAny {
-				h.violate("filtering-module:blocked-service-rules:after-"+h.lastFam,
-					fmt.Sprintf("request (ClientID %q, %s): services whose rules apply are %v for client %q", cid, a, svc, setts.ClientName),
-					map[string]any{"request": map[string]any{"clientid": cid, "addr": a.String()}, "got_services": svc,
-						"got_client": setts.ClientName, "want_services_one_of": wants, "want_tier": tier})
+			a = pr.addrs[e2e.Intn(len(pr.addrs))]
+			cid = pr.applyCIDs[e2e.Intn(len(pr.applyCIDs))]
+		}
+		for _, f := range h.flts {
+			if !h.probeFilter(f, cid, a) {
 				return obs
 			}
 		}
 	}
 	return obs
+}
+
+// c04Filter is a real filtering module wired to the storage under test, with
+// a global blocked-services list and a global pause schedule that pauses
+// always or never.
+type c04Filter struct {
+	d            *filtering.DNSFilter
+	globalPaused bool
+}
+
+// c04NoChecker is a hash-prefix checker that blocks nothing.
+type c04NoChecker struct{}
+
+func (c04NoChecker) Check(_ string) (block bool, err error) { return false, nil }
+
+// c04HostOf gives a host name that the rules of a blocked service match
+// (verified at start-up).
+func c04HostOf(svc string) string { return "www." + svc + ".com" }
+
+// probeFilter sends one request through ApplyAdditionalFiltering and CheckHost
+// of a real filtering module, the way dnsforward does, and compares the
+// blocked-service verdicts with the effective list and the effective pause
+// schedule: the client's own when it opts out of the global ones, the global
+// ones otherwise.
+func (h *c04State) probeFilter(f *c04Filter, cid string, a netip.Addr) (ok bool) {
+	rep := h.rep
+	setts := f.d.Settings()
+	setts.ProtectionEnabled = true
+	f.d.ApplyAdditionalFiltering(a, cid, setts)
+	var svc []string
+	for _, r := range setts.ServicesRules {
+		svc = append(svc, r.Name)
+	}
+	rep.Event("probes_through_filtering_module")
+	cands, tier := h.wantRequest(cid, a)
+	if len(cands) == 0 {
+		cands = []*c04Client{nil}
+	}
+	// Hosts to judge: the services of the global list and the service that
+	// goes with the attributed client's name (in no list for other requests).
+	hosts := []string{c04GlobalSvcs[0], c04GlobalSvcs[1], "discord"}
+	if n := setts.ClientName; c04SvcOf[n] != "" {
+		hosts[2] = c04SvcOf[n]
+	}
+	verdict := map[string]bool{}
+	for _, s := range hosts {
+		res, err := f.d.CheckHost(c04HostOf(s), 1, setts)
+		if err != nil {
+			rep.Inconcl("CheckHost failed: " + err.Error())
+			h.failed = true
+			return false
+		}
+		verdict[s] = res.IsFiltered && res.Reason == filtering.FilteredBlockedService
+		rep.Event("checkhost_verdicts")
+	}
+	pz := map[bool]string{true: "pausing", false: "empty"}
+	var combo, firstBad, badCombo string
+	var wantsDoc []any
+	for _, c := range cands {
+		list, paused, name, uses := c04GlobalSvcs, f.globalPaused, "", "global"
+		ownSched := "none"
+		if c != nil {
+			name = c.spec.Name
+			ownSched = pz[c.spec.ServicesPaused]
+			if c.spec.OwnServices {
+				list, paused, uses = c.spec.Services, c.spec.ServicesPaused, "own"
+			}
+		}
+		combo = "client-uses-" + uses + ":own-sched-" + ownSched + ":global-sched-" + pz[f.globalPaused]
+		var wantRules []string
+		if !paused {
+			wantRules = list
+		}
+		wantsDoc = append(wantsDoc, map[string]any{"client": name, "effective_list": list, "effective_schedule_pausing": paused})
+		bad := ""
+		switch {
+		case name != setts.ClientName:
+			bad = "attribution"
+		case !slices.Equal(svc, wantRules):
+			bad = "rules-of-wrong-services"
+			if len(svc) == 0 {
+				bad = "no-rules-but-want-rules"
+			} else if len(wantRules) == 0 {
+				bad = "rules-but-want-none"
+			}
+		default:
+			for _, s := range hosts {
+				want := !paused && slices.Contains(list, s)
+				if verdict[s] != want {
+					bad = map[bool]string{true: "blocked-but-want-allowed", false: "allowed-but-want-blocked"}[verdict[s]]
+					break
+				}
+			}
+		}
+		if bad == "" {
+			if c != nil {
+				rep.Event("services_probe:" + combo)
+			} else {
+				rep.Event("services_probe:no-client:global-sched-" + pz[f.globalPaused])
+			}
+			return true
+		}
+		// Describe the mismatch against the candidate the request was actually
+		// attributed to, if there is one.
+		if firstBad == "" || (firstBad == "attribution" && bad != "attribution") {
+			firstBad, badCombo = bad, combo
+		}
+	}
+	key := "services:" + firstBad + ":" + badCombo
+	if firstBad == "attribution" {
+		key = "services:attribution-differs-from-storage"
+	}
+	h.violate(key,
+		fmt.Sprintf("request (ClientID %q, %s) through the filtering module (global list %v, global schedule %s): client %q, rules of %v apply, blocked-service verdicts %v",
+			cid, a, c04GlobalSvcs, pz[f.globalPaused], setts.ClientName, svc, verdict),
+		map[string]any{"request": map[string]any{"clientid": cid, "addr": a.String()}, "global_services": c04GlobalSvcs,
+			"global_schedule_pausing": f.globalPaused, "got_client": setts.ClientName, "got_services_with_rules": svc,
+			"got_blocked_service_verdicts": verdict, "want_one_of": wantsDoc, "want_tier": tier})
+	return false
 }
 
 // ---------------------------------------------------------------------------
@@ -993,6 +1120,7 @@ func (g *c04Gen) settings(spec *c04Spec) {
 	// other code); never enabled without an object.
 	spec.SafeSearchObject = spec.SafeSearch || r.Intn(8) == 0
 	spec.OwnServices = r.Intn(2) == 0
+	spec.ServicesPaused = r.Intn(2) == 0
 	spec.Services = []string{c04SvcOf[spec.Name]}
 	if r.Intn(3) == 0 {
 		spec.Services = append(spec.Services, c04GlobalSvcs[r.Intn(len(c04GlobalSvcs))])
@@ -1421,25 +1549,41 @@ func TestVerifC04(t *testing.T) {
 	// The filtering module in front of the storage, as dnsforward uses it.
 	filtering.InitModule()
 	var cur *client.Storage
-	flt, err := filtering.New(&filtering.Config{
-		DataDir:             t.TempDir(),
-		BlockedServices:     &filtering.BlockedServices{Schedule: schedule.EmptyWeekly(), IDs: slices.Clone(c04GlobalSvcs)},
-		SafeBrowsingEnabled: true,
-		ApplyClientFiltering: func(id string, addr netip.Addr, setts *filtering.Settings) {
-			cur.ApplyClientFiltering(id, addr, setts)
-		},
-	}, nil)
-	if err != nil {
-		rep.Inconcl("cannot construct the filtering module: " + err.Error())
-		flt = nil
-	} else {
-		defer flt.Close()
+	var flts []*c04Filter
+	for _, paused := range []bool{false, true} {
+		d, err := filtering.New(&filtering.Config{
+			DataDir:                t.TempDir(),
+			BlockedServices:        &filtering.BlockedServices{Schedule: c04Sched(paused), IDs: slices.Clone(c04GlobalSvcs)},
+			SafeBrowsingChecker:    c04NoChecker{},
+			ParentalControlChecker: c04NoChecker{},
+			SafeSearch:             &c04SafeSearch{id: "<filter-global>"},
+			ApplyClientFiltering: func(id string, addr netip.Addr, setts *filtering.Settings) {
+				cur.ApplyClientFiltering(id, addr, setts)
+			},
+		}, nil)
+		if err != nil {
+			rep.Inconcl("cannot construct the filtering module: " + err.Error())
+			return
+		}
+		defer d.Close()
+		flts = append(flts, &c04Filter{d: d, globalPaused: paused})
+	}
+	// The probe hosts must be hosts the services' rules match.
+	for _, s := range append(slices.Clone(c04GlobalSvcs), "youtube", "facebook", "twitter", "instagram", "tiktok", "netflix", "reddit", "discord") {
+		setts := &filtering.Settings{ProtectionEnabled: true}
+		flts[0].d.ApplyBlockedServicesList(setts, []string{s})
+		res, err := flts[0].d.CheckHost(c04HostOf(s), 1, setts)
+		res0, _ := flts[0].d.CheckHost(c04HostOf(s), 1, &filtering.Settings{ProtectionEnabled: true})
+		if err != nil || res.Reason != filtering.FilteredBlockedService || res0.IsFiltered {
+			rep.Inconcl(fmt.Sprintf("probe host %s is not decided by the rules of service %q alone", c04HostOf(s), s))
+			return
+		}
 	}
 
 	nHist := verifkit.Pick(1500, 30000)
 	for hi := 0; hi < nHist; hi++ {
 		func() {
-			h := &c04State{rep: rep, flt: flt, dhcp: &c04DHCP{leases: map[netip.Addr]net.HardwareAddr{}}, lastOwner: map[string]int{}}
+			h := &c04State{rep: rep, flts: flts, dhcp: &c04DHCP{leases: map[netip.Addr]net.HardwareAddr{}}, lastOwner: map[string]int{}}
 			defer func() {
 				if r := recover(); r != nil {
 					h.violate("panic:after-"+h.lastFam, fmt.Sprintf("client storage panicked: %v", r), nil)
@@ -1560,6 +1704,19 @@ func TestVerifC04(t *testing.T) {
 	}
 	if rep.Events["requests_of_own_settings_client_without_safesearch_object"] < 500 && !rep.Violated() {
 		rep.Inconcl("too few requests of own-settings clients whose safe search is off and whose safe-search object is nil")
+	}
+
+	// All combinations of (client uses own / global blocked services) x (own
+	// schedule pausing / empty) x (global schedule pausing / empty).
+	for _, uses := range []string{"own", "global"} {
+		for _, own := range []string{"pausing", "empty"} {
+			for _, g := range []string{"pausing", "empty"} {
+				ev := "services_probe:client-uses-" + uses + ":own-sched-" + own + ":global-sched-" + g
+				if rep.Events[ev] < 300 && !rep.Violated() {
+					rep.Inconcl(fmt.Sprintf("%s seen only %d times", ev, rep.Events[ev]))
+				}
+			}
+		}
 	}
 
 	// The run must have seen what the property is about.
